@@ -56,6 +56,8 @@ func (r *result) doCause(ctx context.Context, wg *sync.WaitGroup) {
 			return
 		}
 		r.lnB = ln
+	case "craft":
+		r.doCraft()
 	case "forge":
 		data, code, name, skip := r.forge(c.By, c.Variant)
 		if skip != "" {
@@ -286,6 +288,10 @@ func (r *result) forge(victim string, variant int) (data []byte, code uint64, na
 // router's log itself may only be read through Router.Trace).
 type tapState struct {
 	mu           sync.Mutex
+	tokens       map[string]map[string][16]byte // announcing side -> connection ID (hex) -> stateless reset token (NEW_CONNECTION_ID frames)
+	srvSCID      []byte                         // source connection ID of the server's long header packets (the ID its transport parameter token belongs to)
+	tail         map[int][16]byte               // last 16 bytes of undecryptable short-header datagrams (by sequence number): the token if it is a stateless reset
+	usedDCID     map[string][]string            // direction -> destination connection IDs (hex) seen in decrypted 1-RTT packets, in order of first use
 	last1rtt     map[string]*sim.Packet
 	maxPN        map[string]uint64
 	keyUpdate    map[string]bool
@@ -295,18 +301,37 @@ type tapState struct {
 }
 
 func newTap() *tapState {
-	return &tapState{last1rtt: map[string]*sim.Packet{}, maxPN: map[string]uint64{}, keyUpdate: map[string]bool{}, lastData: map[string][]byte{}, ccData: map[int][]byte{}}
+	return &tapState{tail: map[int][16]byte{}, tokens: map[string]map[string][16]byte{"c": {}, "s": {}}, usedDCID: map[string][]string{}, last1rtt: map[string]*sim.Packet{}, maxPN: map[string]uint64{}, keyUpdate: map[string]bool{}, lastData: map[string][]byte{}, ccData: map[int][]byte{}}
 }
 
 func (t *tapState) tap(dir sim.Dir, rec *sim.Record) {
 	t.mu.Lock()
 	defer t.mu.Unlock()
 	d := rec.Dir
+	if ps := pktsOf(rec); len(ps) == 1 && ps[0].Kind == "undecryptable" && len(rec.Data) >= 21 {
+		t.tail[rec.Seq] = [16]byte(rec.Data[len(rec.Data)-16:])
+	}
 	all1rtt := true
 	for _, p := range pktsOf(rec) {
+		if d == "s2c" && (p.Kind == "initial" || p.Kind == "handshake") {
+			t.srvSCID = p.SCID
+		}
+		if (p.Kind == "initial" || p.Kind == "handshake") && p.Err == "" {
+			if id := hex.EncodeToString(p.DCID); !has(t.usedDCID[d], id) {
+				t.usedDCID[d] = append(t.usedDCID[d], id)
+			}
+		}
+		for _, fr := range p.Frames {
+			if fr.Name == refwire.NameNewConnectionID {
+				t.tokens[map[string]string{"c2s": "c", "s2c": "s"}[d]][hex.EncodeToString(fr.ConnID)] = fr.ResetToken
+			}
+		}
 		switch p.Kind {
 		case "1rtt":
 			if p.Err == "" {
+				if id := hex.EncodeToString(p.DCID); !has(t.usedDCID[d], id) {
+					t.usedDCID[d] = append(t.usedDCID[d], id)
+				}
 				if p.KeyPhase || p.KeyGen != 0 {
 					t.keyUpdate[d] = true
 				}
